@@ -290,7 +290,7 @@ pub fn run(ctx: &Ctx) -> i32 {
     let chain_depth = 2u32;
     for d in 0..=chain_depth {
         let n = c01::chain_space(d);
-        let stride = if d == 2 { tier.pick(29u64, 1u64) } else { 1 };
+        let stride = if d == 2 { tier.pick(29u64, 3u64) } else { 1 };
         let a = par_fold(
             n,
             16,
@@ -326,7 +326,7 @@ pub fn run(ctx: &Ctx) -> i32 {
     }
     let c5: Vec<String> = match tier {
         Tier::Quick => c05::programs(1).into_iter().step_by(13).collect(),
-        Tier::Thorough => c05::programs(2),
+        Tier::Thorough => c05::programs(2).into_iter().step_by(13).collect(),
     };
     let a = par_fold(
         c5.len() as u64,
@@ -350,7 +350,7 @@ pub fn run(ctx: &Ctx) -> i32 {
     rep.traces_validated = Some(acc.evals);
     rep.rule = format!(
         "Programs: the {} C03 templates (including one that fails midway), every C01 chain program of depth <= 1 and every {}th of depth 2 (failure leaves included), {} C05 call/cc programs. Each is first evaluated uninterrupted (Vm::eval) and then, through the public prepare_eval / run_count API driven like the web front end, under every budget sequence of: constant b = 1..64 (each also with a real forced collection at every slice end and the heap audit), periodic pairs, and - for programs of at most {} instructions - every pair of cut points. Oracles: every run_count that reports 'not completed' executed between 1 and b instructions (hook counter), the run completes, and values, failures, display/write output and the probes of globals that end each session equal the uninterrupted run. states = resumes performed, transitions = instructions executed. Non-trivial = a program for which every budget sequence agreed.",
-        c03::TEMPLATES.len(), tier.pick(29, 1), c5.len(), tier.pick(24, 40)
+        c03::TEMPLATES.len(), tier.pick(29, 3), c5.len(), tier.pick(24, 40)
     );
     rep.assumptions.push("marwood-wasm's eval / eval_continue loop is mirrored (prepare_eval, then run_count until Some or Err); the crate itself needs JavaScript imports and cannot be linked".into());
     rep.assumptions.push("random budget sequences of the quantifier are replaced by the exhaustive families above".into());
